@@ -296,6 +296,15 @@ func (p *Program) verifyFunc(spec *FuncSpec) (u *Unit) {
 	for i, pr := range c.panics {
 		c.addObl(Obl{Name: fmt.Sprintf("%s/unreachable-panic#%d", u.Name, i+1), Kind: "unreachable-panic", Guard: pr.St.guard, Goal: allowed, Pos: c.pos(pr.Pos), Text: "panic(" + pr.Msg + ") only under a declared 'panics when' condition"})
 	}
+	if spec.NoSafety {
+		var keep []*Obl
+		for _, ob := range c.obls {
+			if !strings.HasPrefix(ob.Kind, "safe.") && ob.Kind != "unreachable-panic" {
+				keep = append(keep, ob)
+			}
+		}
+		c.obls = keep
+	}
 	// canary: some return point is reachable (a false postcondition must be refutable)
 	if len(c.rets) > 0 {
 		g := "false"
